@@ -79,3 +79,96 @@ func zzHexVal(c byte) (int, bool) {
 	}
 	return 0, false
 }
+
+// Reference decoder for the text between the quotation marks of a string or
+// bytes literal, written from doc/spec.md "String literals"/"String escapes"
+// plus the Bazel Starlark spec for \u, \U and bytes literals (string literals:
+// octal/hex escapes only up to 0x7F; \u/\U denote the UTF-8 encoding of a
+// Unicode scalar value).
+// zzRefDecode decodes the text between the quotation marks.
+func zzRefDecode(in string, raw, isByte bool) (out []byte, ok bool) {
+	i := 0
+	for i < len(in) {
+		c := in[i]
+		if c == '\r' { // line ending CR or CRLF denotes LF
+			out = append(out, '\n')
+			i++
+			if i < len(in) && in[i] == '\n' {
+				i++
+			}
+			continue
+		}
+		if c != '\\' || raw {
+			out = append(out, c)
+			i++
+			continue
+		}
+		if i+1 >= len(in) {
+			return nil, false
+		}
+		e := in[i+1]
+		i += 2
+		switch {
+		case e == '\n':
+		case e == 'a':
+			out = append(out, 7)
+		case e == 'b':
+			out = append(out, 8)
+		case e == 't':
+			out = append(out, 9)
+		case e == 'n':
+			out = append(out, 10)
+		case e == 'v':
+			out = append(out, 11)
+		case e == 'f':
+			out = append(out, 12)
+		case e == 'r':
+			out = append(out, 13)
+		case e == '\\' || e == '\'' || e == '"':
+			out = append(out, e)
+		case '0' <= e && e <= '7':
+			n := int(e - '0')
+			for d := 0; d < 2 && i < len(in) && '0' <= in[i] && in[i] <= '7'; d++ {
+				n = n*8 + int(in[i]-'0')
+				i++
+			}
+			if n > 255 || !isByte && n > 127 {
+				return nil, false
+			}
+			out = append(out, byte(n))
+		case e == 'x' || e == 'u' || e == 'U':
+			nd := 2
+			if e == 'u' {
+				nd = 4
+			} else if e == 'U' {
+				nd = 8
+			}
+			if i+nd > len(in) {
+				return nil, false
+			}
+			n := 0
+			for d := 0; d < nd; d++ {
+				h, hok := zzHexVal(in[i+d])
+				if !hok {
+					return nil, false
+				}
+				n = n<<4 | h
+			}
+			i += nd
+			if e == 'x' {
+				if !isByte && n > 127 {
+					return nil, false
+				}
+				out = append(out, byte(n))
+			} else {
+				if n > 0x10FFFF || 0xD800 <= n && n <= 0xDFFF {
+					return nil, false
+				}
+				out = append(out, zzEncodeRune(rune(n))...)
+			}
+		default:
+			return nil, false
+		}
+	}
+	return out, true
+}
